@@ -575,6 +575,22 @@ def r6_defaults_not_aliased(chk: Check):
                     "(clone): editing the nested default of one instance would silently edit the class default, "
                     "so the edited value still 'equals the default' and is left out of the identifier", chk.loc(f.module, x))
     chk.min_instances(n, 1, "uses of a declared default while building an instance")
+    # ... a copy in depth: clone() rebuilds a configuration from clones of its values (and recurses through lists and dicts); a shallow copy
+    # leaves the nested sub-configurations of a default shared by every instance -- sealed, with their generated paths, by the first task
+    cl = tree.func("core.objects", "clone")
+    gc = CFG(cl.node)
+    kinds = {}
+    for nd in gc.live:
+        if nd.kind == "stmt" and isinstance(nd.ast, ast.Return) and nd.ast.value is not None:
+            gs = [src(t.ast) for t, pol in gc.guards(nd) if t.kind == "test" and pol is True and src(t.ast).startswith("isinstance(")]
+            for k in ("Config", "list", "dict"):
+                if any(k in g_ for g_ in gs):
+                    rdc = ReachingDefs(gc)
+                    txt = rdc.canon(nd.ast.value, nd, depth=6)
+                    kinds.setdefault(k, []).append("clone(" in txt)
+    for k in ("Config", "list", "dict"):
+        chk.require(bool(kinds.get(k)) and all(kinds[k]), chk.fkey(cl, f"deep copy of {k} values"),
+                    f"clone() does not clone what a {k} value contains: the nested sub-configurations of a declared default are shared by all instances", chk.loc(cl.module, cl.node))
 
 
 def r7_reload_tristate(chk: Check):
